@@ -13,7 +13,7 @@ import (
 func init() {
 	register("C19", &propDef{
 		Title: "No entry point panics, crashes or hangs on any input",
-		Rules: []func(*Checker){ruleC19Recursion, ruleC19Block, ruleC19Index, ruleC19Panics, ruleC19LibPanics},
+		Rules: []func(*Checker){ruleC19Recursion, ruleC19Block, ruleC19Index, ruleC19Panics, ruleC19LibPanics, ruleC19NilField},
 		NotDecided: []string{
 			"total running time; panics inside libraries",
 			"explicit 'cannot happen' panics whose unreachability rests on library behaviour are inventoried (C19.panics) and their guards checked where structural, but not proved unreachable",
@@ -1070,4 +1070,164 @@ func ruleC19LibPanics(c *Checker) {
 		}
 	}
 	c.check(n > 0, R, "-", "guarded library calls", "-", fmt.Sprintf("%d call(s) of panicking library functions on non-constant input", n), "no call of versions.ParseVersion on input found (versions are no longer parsed from text?)")
+}
+
+// C19.nilfield — a lazily initialised pointer field is not dereferenced
+// before it is known to be set.
+func ruleC19NilField(c *Checker) {
+	const R = "C19.nilfield"
+	c.rule(R, "Contradiction rule for lazily initialised fields: a pointer-typed field of a module struct that is compared with nil somewhere in the module (so it can be nil) is used as a method receiver or dereferenced only where it is known to be set — past the not-nil edge of a test of that field of the same object, or past the ok edge of a call to the initialiser (a method of the same object every successful return of which has stored a non-nil value into the field). A separate 'done' flag set before the initialiser has succeeded does not establish that.", 1)
+	p := c.P
+	// fields compared with nil somewhere
+	nilChecked := map[*types.Var]bool{}
+	fieldLoad := func(v ssa.Value) (*ssa.FieldAddr, bool) {
+		ld, ok := canon(v).(*ssa.UnOp)
+		if !ok || ld.Op != token.MUL {
+			return nil, false
+		}
+		fa, ok := ld.X.(*ssa.FieldAddr)
+		if !ok || fieldOf(fa) == nil {
+			return nil, false
+		}
+		if _, isPtr := fieldOf(fa).Type().Underlying().(*types.Pointer); !isPtr {
+			return nil, false
+		}
+		return fa, true
+	}
+	for _, fn := range p.Funcs {
+		if !p.InModule(fn) {
+			continue
+		}
+		eachInstr(fn, func(in ssa.Instruction) {
+			bo, ok := in.(*ssa.BinOp)
+			if !ok || (bo.Op != token.EQL && bo.Op != token.NEQ) {
+				return
+			}
+			var other ssa.Value
+			switch {
+			case isNilConst(bo.X):
+				other = bo.Y
+			case isNilConst(bo.Y):
+				other = bo.X
+			default:
+				return
+			}
+			if fa, ok := fieldLoad(other); ok && fieldOf(fa).Pkg() != nil && strings.HasPrefix(fieldOf(fa).Pkg().Path(), p.ModPath) {
+				nilChecked[fieldOf(fa)] = true
+			}
+		})
+	}
+	// ... or set by a method of the object rather than where the object is built (lazy initialisation)
+	for _, fn := range p.Funcs {
+		if !p.InModule(fn) {
+			continue
+		}
+		eachInstr(fn, func(in ssa.Instruction) {
+			st, ok := in.(*ssa.Store)
+			if !ok || isNilConst(st.Val) {
+				return
+			}
+			fa, ok := st.Addr.(*ssa.FieldAddr)
+			if !ok || fieldOf(fa) == nil {
+				return
+			}
+			if _, isPtr := fieldOf(fa).Type().Underlying().(*types.Pointer); !isPtr {
+				return
+			}
+			if prm, ok := canon(fa.X).(*ssa.Parameter); ok && len(fn.Params) > 0 && prm == fn.Params[0] && fn.Signature.Recv() != nil {
+				if fieldOf(fa).Pkg() != nil && strings.HasPrefix(fieldOf(fa).Pkg().Path(), p.ModPath) {
+					nilChecked[fieldOf(fa)] = true
+				}
+			}
+		})
+	}
+	n := 0
+	for _, fn := range p.Funcs {
+		if !p.InModule(fn) {
+			continue
+		}
+		for _, ci := range callsIn(fn) {
+			cl, ok := ci.(*ssa.Call)
+			if !ok || cl.Call.IsInvoke() || len(cl.Call.Args) == 0 {
+				continue
+			}
+			g := cl.Common().StaticCallee()
+			if g == nil || g.Signature.Recv() == nil {
+				continue
+			}
+			if _, isPtrRecv := g.Signature.Recv().Type().(*types.Pointer); !isPtrRecv {
+				continue
+			}
+			fa, ok := fieldLoad(cl.Call.Args[0])
+			if !ok || !nilChecked[fieldOf(fa)] {
+				continue
+			}
+			n++
+			F := fieldOf(fa)
+			base := canon(fa.X)
+			// not-nil edges of tests of this field of the same object
+			tE, fE := condEdges(fn, func(v ssa.Value) bool {
+				bo, ok := v.(*ssa.BinOp)
+				if !ok || (bo.Op != token.EQL && bo.Op != token.NEQ) {
+					return false
+				}
+				var other ssa.Value
+				switch {
+				case isNilConst(bo.X):
+					other = bo.Y
+				case isNilConst(bo.Y):
+					other = bo.X
+				default:
+					return false
+				}
+				f2, ok := fieldLoad(other)
+				return ok && fieldOf(f2) == F && canon(f2.X) == base
+			})
+			var cut []Edge
+			for _, e := range tE {
+				if ifi, ok := e.From.Instrs[len(e.From.Instrs)-1].(*ssa.If); ok {
+					cnd, neg := stripNot(ifi.Cond)
+					if bo, ok := cnd.(*ssa.BinOp); ok && (bo.Op == token.NEQ) != neg {
+						cut = append(cut, e)
+					}
+				}
+			}
+			for _, e := range fE {
+				if ifi, ok := e.From.Instrs[len(e.From.Instrs)-1].(*ssa.If); ok {
+					cnd, neg := stripNot(ifi.Cond)
+					if bo, ok := cnd.(*ssa.BinOp); ok && (bo.Op == token.EQL) != neg {
+						cut = append(cut, e)
+					}
+				}
+			}
+			// ok edges of initialiser calls on the same object
+			for _, c2 := range callsIn(fn) {
+				ic, ok := c2.(*ssa.Call)
+				if !ok || len(ic.Call.Args) == 0 || canon(ic.Call.Args[0]) != base {
+					continue
+				}
+				h := ic.Common().StaticCallee()
+				if h == nil || !p.InModule(h) || len(h.Params) == 0 {
+					continue
+				}
+				recv := h.Params[0]
+				sets := p.helperAlways(h, func(in ssa.Instruction) bool {
+					st, ok := in.(*ssa.Store)
+					if !ok || isNilConst(st.Val) {
+						return false
+					}
+					f3, ok := st.Addr.(*ssa.FieldAddr)
+					return ok && fieldOf(f3) == F && canon(f3.X) == ssa.Value(recv)
+				}, 0)
+				if !sets {
+					continue
+				}
+				okE, _ := okEdgesOfCall(ic)
+				cut = append(cut, okE...)
+			}
+			okG := len(cut) > 0 && p.guardedC(cl.Block(), cut)
+			c.check(okG, R, p.FuncName(fn), "use of "+F.Name()+" as receiver of "+shortCallee(fullName(calleeObj(cl))), p.Pos(cl.Pos()), "reached only past a not-nil test of the field or a successful initialiser", "the field "+F.Name()+" is nil-checked elsewhere (it is set lazily) but is used here on a path where it is not known to be set — e.g. guarded by a flag that is raised before the initialiser has succeeded: after a failed initialisation the next call dereferences nil and panics")
+		}
+	}
+	c.check(n > 0, R, "-", "uses of lazily initialised fields", "-", fmt.Sprintf("%d use(s) examined", n), "no use of a nil-checked pointer field as a method receiver found (the rule has no instance)")
 }
